@@ -167,6 +167,8 @@ def _cc(api, build, sysv, shape, payload, param, maps, tier):
 def crash_cell(case, exc, where):
     if case["kind"] == "corr":
         return f"C09/correct/param={case['param']}/crash/{case['api']}/{case['build']}/{'same' if case['sys'] == 'same' else 'other'}/{type(exc).__name__}"
+    if case["kind"] == "rotcorr":
+        return f"C09/RotationCorrection/crash/payload={case['payload']}/{type(exc).__name__}@{where}"
     return f"C09/{case['kind']}/crash/{type(exc).__name__}@{where}"
 
 
